@@ -97,6 +97,13 @@ func doPacket(e *dpadv.Env, a *dpadv.APkt, r *rand.Rand) {
 				runOne(e, a, dpadv.BuildOpts{Payload: n, HBH: ext&1 != 0, E2E: ext&2 != 0, Rng: r})
 			}
 		}
+		if a.Kind != "ohp" {
+			for _, total := range []int{20, 40, 64} {
+				for _, n := range []int{60, 1200} {
+					runOne(e, dpadv.Extend(a, total), dpadv.BuildOpts{Payload: n, Rng: r})
+				}
+			}
+		}
 		for _, l4 := range []string{"udp", "tcp", "scmperr", "scmpinfo", "trreq"} {
 			b := *a
 			b.L4 = l4
